@@ -66,6 +66,11 @@ def handleC07 (op : String) (input impl : Json) : Except String Json := do
     if resClass impl != "ok" then
       -- a transfer that the model accepts must be accepted
       return reply mj (resClass mj == "err") (if resClass mj == "ok" then ["receiver-accepts-sender-order"] else [])
+    -- a transfer the model refuses because a parent is missing must be refused
+    if (match m with
+        | .err e => e == "parent-missing"
+        | _ => false) then
+      return reply mj false ["commit-never-accepted-without-its-parents"]
     let v := fldD impl "val" Json.null
     let ipacks ← (← arrFld v "packs").mapM pairList
     let ikeys ← pairList (fldD v "keys" (Json.arr #[]))
